@@ -56,3 +56,10 @@ PROPS["C16"] = {"pkgs": [(".", "TestVerif_C16")],
                                  "server's random choices, observed and fed to the model)",
                                  "io.Copy is taken to be the identity relay; the byte-content claim rests on the correspondence runs"],
                 "assumptions": []}
+
+PROPS["C13"] = {"pkgs": [("./internal/client", "TestVerif_C13")],
+                "trusted_base": ["the TURN client underneath the relayed socket is scripted (server reactions are the model's environment input)",
+                                 "the demultiplexing done by client.go for Data indications / ChannelData is replicated by the harness "
+                                 "(FindAddrByChannelNumber + HandleInbound); C09 covers client.go's own dispatch",
+                                 "goroutine-level interleavings of maybeBind's background goroutine are abstracted to 'the reaction arrives at a later event'"],
+                "assumptions": ["at most two 438 answers in a row to one ChannelBind (the third makes the client give up; not modelled)"]}
